@@ -418,6 +418,8 @@ def bind_statement(stmt, params):
             return ("const", a.value)
         if a.kind == "null":
             return ("const", None)
+        if a.kind == "subq":
+            return ("unknown", "subquery")
         return ("sqlcol", a.value)
 
     out = {"set": {}, "where": [], "where_eq": {}, "dnf": []}
